@@ -38,10 +38,12 @@ BlockWrong(e) ==
 
 \* FindColor: result is a member, and no member is strictly closer.  Distances are delta-E (CIE76) scaled by 10^6,
 \* computed by the harness's own CIELAB code; tol absorbs what the definition leaves open (4- or 7-digit sRGB matrix,
-\* white point digits): implementations that are both "CIE76" differ by about 10^-4 delta-E on near-ties.
+\* white point digits): implementations that are both "CIE76" differ by about 10^-4 of the distance (0.005 at 34, 0.01 at 100).
 FindWrong(e, tol) ==
     IF Len(e.pal) = 0 THEN (IF e.isdefault THEN {} ELSE {"empty_palette"})
     ELSE IF e.idx < 1 \/ e.idx > Len(e.pal) THEN {"not_a_member"}
     \* members that are not colours carry distance -1: they are never "closer", and choosing one is not judged
-    ELSE IF e.d[e.idx] >= 0 /\ \E q \in 1..Len(e.pal) : e.d[q] >= 0 /\ e.d[q] + tol < e.d[e.idx] THEN {"not_nearest"} ELSE {}
+    \* the allowance grows with the distance: CIELAB implementations agree to about 10^-4 relative
+    ELSE IF e.d[e.idx] >= 0 /\ \E q \in 1..Len(e.pal) : e.d[q] >= 0 /\ e.d[q] + tol + (e.d[e.idx] \div 2500) < e.d[e.idx]
+         THEN {"not_nearest"} ELSE {}
 =============================================================================
